@@ -336,7 +336,8 @@ pub fn run(cx: &mut Ctx) {
         }
     }
     // paths: exhaustive over {'/', 'a', '.', two-byte char} to length 6 (5 quick), whatever was there before
-    let alpha = ["/", "a", ".", "\u{e9}"];
+    // ('%', '2', 'F' so that percent-escapes such as %2F occur: Uri-Path values are not percent-decoded)
+    let alpha = ["/", "a", ".", "\u{e9}", "%", "2", "F"];
     let maxlen = if thorough { 6 } else { 5 };
     let mut paths: Vec<String> = vec![];
     all_strings(&alpha, maxlen, &mut |s| paths.push(s.to_string()));
@@ -364,6 +365,10 @@ pub fn run(cx: &mut Ctx) {
         let mut s = String::new();
         for _ in 0..len {
             s.push(*rng.pick(&['/', '/', 'a', 'b', '.', '%', ' ', '\u{e9}', '\u{20ac}', '\u{1f601}', '?', '#']));
+            if rng.chance(1, 6) {
+                let toks: [&str; 9] = ["%2F", "%2f", "%25", "%2E%2E", "..", "+", "%00", "\u{feff}", "%C3%A9"];
+                s.push_str(*rng.pick(&toks));
+            }
         }
         req_case(cx, &[format!("path {}", hex(s.as_bytes())), "getpath".into(), "getvec".into(), "raw 11".into()]);
     }
